@@ -1743,7 +1743,7 @@ fn generate(rng: &mut Rng, tier: &str, w: &mut CaseWriter) {
         s2.flags = 4; // placed unmapped: reg2bin(pos-1, pos)
         w.push("rec", s2.to_args("bgzf", None));
     }
-    let n_valid = if thorough { 40000 } else { 1500 };
+    let n_valid = if thorough { 120000 } else { 1500 };
     for i in 0..n_valid {
         let (s, rle) = gen_valid(rng);
         let mode = if i % 16 == 0 { "bgzf" } else { "raw" };
@@ -1759,7 +1759,7 @@ fn generate(rng: &mut Rng, tier: &str, w: &mut CaseWriter) {
         w.push("rw", s.to_args("raw", rle.clone()));
         w.push("rec", s.to_args(if i % 2 == 0 { "raw" } else { "bgzf" }, rle));
     }
-    let n_rej = if thorough { 3000 } else { 240 };
+    let n_rej = if thorough { 6000 } else { 240 };
     for i in 0..n_rej {
         if i % 30 == 26 && !thorough && i > 30 {
             continue; // the 65536-op reject is expensive: once in the quick tier
@@ -1772,7 +1772,7 @@ fn generate(rng: &mut Rng, tier: &str, w: &mut CaseWriter) {
         let n = if i < 24 { i } else { *rng.pick(&[25usize, 31, 32, 33, 100, 101, 1000, 1001]) };
         w.push("sub", vec![hex(&gen_bases(rng, n))]);
     }
-    let n_dec = if thorough { 20000 } else { 1200 };
+    let n_dec = if thorough { 60000 } else { 1200 };
     for i in 0..n_dec {
         if i % 6 == 0 {
             gen_dec_cg(rng, w);
